@@ -173,11 +173,17 @@ def verify_op(run, tier, sess, which, prefix_root='C04'):
                 for name, g in TP.post_unchanged(S0, S1):
                     ctx.oblige(prefix + '/' + name, g)
         else:
-            ok_call = len(pel.calls) == 1 and res is pel.calls[0][2]
-            ctx.oblige(prefix + '/single.exactly-one-trace-candidate', z3.BoolVal(ok_call))
-            if ok_call:
-                arr, ln, _ = pel.calls[0]
-                ctx.oblige(prefix + '/single.decodes-the-event-alone', z3.And(ln == 1, z3.Select(arr, 0) == n))
+            cont = TP.single_is_continuation(S0, t, c, EvQual(n))
+            if res is None:
+                # swallowed: allowed only for a continuation record of a split path / string
+                ctx.oblige(prefix + '/single.swallowed-only-if-continuation', z3.And(cont, z3.BoolVal(len(pel.calls) == 0)))
+            else:
+                ok_call = len(pel.calls) == 1 and res is pel.calls[0][2]
+                ctx.oblige(prefix + '/single.exactly-one-trace-candidate', z3.BoolVal(ok_call))
+                ctx.oblige(prefix + '/single.continuation-not-reported', z3.Not(cont))
+                if ok_call:
+                    arr, ln, _ = pel.calls[0]
+                    ctx.oblige(prefix + '/single.decodes-the-event-alone', z3.And(ln == 1, z3.Select(arr, 0) == n))
             for name, g in TP.post_single(S0, S1, t, n):
                 ctx.oblige(prefix + '/' + name, g)
         return res
